@@ -87,6 +87,17 @@ def install(handler, g):
         from unit_scaling.formats import FPFormat
 
         ob = rj["obligation"]
+        if rj["job"].startswith("c13:reuse[") and rj["cfg"].get("history") == "rounding":
+            c = rj["cfg"]
+            f = FPFormat(c["E"], c["M"])  # default rounding: stochastic, __post_init__ stores srbits = 23 - M
+            f.rounding = "nearest"
+            g_ = FPFormat(c["E"], c["M"], "nearest")
+            _, emin_, mx_ = consts(c["E"], c["M"])
+            sp = float(Fraction(2) ** (emin_ - c["M"]))
+            xs = torch.tensor([0.875 * 8 * sp, 0.375 * 8 * sp, 1.3, -2.7, 0.3, 1.75 * float(mx_) / 2], dtype=torch.float32)
+            a, b = f.quantise(xs.clone()), g_.quantise(xs.clone())
+            bad = not torch.equal(a, b)
+            return bad, (f"an E{c['E']}M{c['M']} object constructed as stochastic and then set to nearest quantises {xs.tolist()} to {a.tolist()}, a fresh nearest format to {b.tolist()}" if bad else "equal to a fresh nearest format")
         if rj["job"].startswith("c13:reuse["):
             c = rj["cfg"]
             f = FPFormat(c["E0"], c["M0"], "nearest")
